@@ -345,6 +345,12 @@ def run_rules(case):
         for _ in range(400):
             rf = float(10.0 ** rng.uniform(-12, 2)) if rng.random() < 0.9 \
                 else 0.0
+            u = rng.random()
+            if u < 0.06:
+                # radii at the far ends of the floating-point range
+                rf = float(10.0 ** rng.uniform(-300, -100))
+            elif u < 0.1:
+                rf = float(10.0 ** rng.uniform(100, 290))
             res = rf * float(10.0 ** rng.uniform(0, 8)) if rf > 0 else \
                 float(10.0 ** rng.uniform(-12, 2))
             if rng.random() < 0.15:
